@@ -18,7 +18,7 @@ from vlib.redzone import Frame
 PROPERTY = "C03"
 LEVEL = "exploration"
 CLAIM = {
-    "text": "Exhaustive runtime check of the finite per-byte domain: all 256 byte values at every position of arrays of length 0..9 (unpack), all 256 field tuples per byte at every position of arrays of 1..4 bytes (pack, unpack(pack)), for nbits in {1,2,4} x {big,little}, with and without a caller-supplied output buffer (red-zone framed, canaries audited), plus the complete rejection table and the per-depth default bit order through a FileWriter/FileReader round trip cross-checked with an independent packer. Thorough repeats everything under NUMBA_BOUNDSCHECK=1. Large arrays (4096 .. 2^20 bytes) are unpacked/packed with both bit orders alternating inside one process. The thorough tier also runs the repository's own test-suite with pack/unpack compared against the shift definition on every call. Rounds 7-8 added: packs of 2^20+1 bytes worth of samples, a file written in calls of shrinking size, and a block unpacked across the boundary of two files.",
+    "text": "Exhaustive runtime check of the finite per-byte domain: all 256 byte values at every position of arrays of length 0..9 (unpack), all 256 field tuples per byte at every position of arrays of 1..4 bytes (pack, unpack(pack)), for nbits in {1,2,4} x {big,little}, with and without a caller-supplied output buffer (red-zone framed, canaries audited), plus the complete rejection table and the per-depth default bit order through a FileWriter/FileReader round trip cross-checked with an independent packer. Thorough repeats everything under NUMBA_BOUNDSCHECK=1. Large arrays (4096 .. 2^20 bytes) are unpacked/packed with both bit orders alternating inside one process. The thorough tier also runs the repository's own test-suite with pack/unpack compared against the shift definition on every call. Rounds 7-8 added: packs of 2^20+1 bytes worth of samples, a file written in calls of shrinking size, and a block unpacked across the boundary of two files. Round 10 added: the rejection table and a round trip repeated in a child interpreter started with -O.",
     "design_ref": "DESIGN.md section 3 (C03), 2.1, 2.2",
     "note": "Trusted: Python integer shifts/masks as the definition, numpy as a container. pack() on an input whose length is not a multiple of 8/nbits is unspecified by the statement (counted, not judged). Arrays longer than 9 bytes are covered only by random spot checks.",
     "technique": "runtime monitoring: exhaustive enumeration against a Python-integer bit-field definition + red-zone canaries + bounds-checked re-JIT",
